@@ -693,12 +693,94 @@ func short(r result) result {
 	return r
 }
 
+// ---------------------------------------------------------------- part 4: entry points of package client
+
+// clientHistories: what a fetch accepts must not depend on which entry point of package
+// client was used before it. Every sequence of up to three operations over {FetchURL of a
+// document declared as activity+json / ld+json / jrd+json / html, a webfinger lookup},
+// with the response cache emptied before each operation so that every operation really
+// asks the peer; each result is compared with the same operation in a fresh process state
+// (which is what the statement prescribes: ld+json and activity+json are documents for
+// FetchURL, jrd+json is one only for the webfinger lookup).
+func clientHistories(r *ev.Report) int64 {
+	base := "https://cl.example"
+	doc := func(name, ctype string) string {
+		u := base + "/doc/" + name
+		put(u, rawResp("HTTP/1.1 200 OK\r\n", []string{"Content-Type: " + ctype}, `{"id":"`+u+`","type":"Note"}`))
+		return u
+	}
+	urls := map[string]string{
+		"activity": doc("activity", "application/activity+json"),
+		"ld":       doc("ld", `application/ld+json; profile="https://www.w3.org/ns/activitystreams"`),
+		"jrd":      doc("jrd", "application/jrd+json"),
+		"json":     doc("json", "application/json"),
+		"html":     doc("html", "text/html"),
+	}
+	put(base+"/.well-known/webfinger?resource=acct%3Aalice%40cl.example", rawResp("HTTP/1.1 200 OK\r\n", []string{"Content-Type: application/jrd+json"},
+		`{"subject":"acct:alice@cl.example","links":[{"rel":"self","type":"application/activity+json","href":"`+urls["activity"]+`"}]}`))
+	ops := []string{"activity", "ld", "jrd", "json", "html", "webfinger"}
+	do := func(op string) (res string) {
+		defer func() {
+			if x := recover(); x != nil {
+				res = "panic: " + fmt.Sprint(x)
+			}
+		}()
+		jtp.VerifPurgeCache()
+		if op == "webfinger" {
+			link, err := client.ResolveWebfinger("alice@cl.example")
+			if err != nil {
+				return "error"
+			}
+			return "link:" + link
+		}
+		u, _ := url.Parse(urls[op])
+		o, src, err := client.FetchURL(u)
+		if err != nil {
+			return "error"
+		}
+		return fmt.Sprintf("document:%v source:%v", o != nil, src)
+	}
+	fresh := map[string]string{}
+	for _, op := range ops {
+		fresh[op] = do(op)
+	}
+	want := map[string]string{"activity": "document", "ld": "document", "json": "document", "jrd": "error", "html": "error", "webfinger": "link:"}
+	for op, w := range want {
+		if !strings.HasPrefix(fresh[op], w) {
+			r.Violation("client-history:fresh:"+op, map[string]any{"operation": op, "got": fresh[op], "msg": "the first use of this entry point does not behave as the statement prescribes"})
+		}
+	}
+	var n int64
+	var rec func(seq []string)
+	rec = func(seq []string) {
+		if len(seq) > 0 {
+			for i, op := range seq {
+				got := do(op)
+				n++
+				if got != fresh[op] {
+					r.Violation("client-history:"+op, map[string]any{"sequence": seq[:i+1], "got": got, "alone": fresh[op],
+						"msg": "after these operations the last one answers differently than on its own (the cache was emptied before it)"})
+					return
+				}
+			}
+		}
+		if len(seq) == 3 {
+			return
+		}
+		for _, op := range ops {
+			rec(append(append([]string{}, seq...), op))
+		}
+	}
+	rec(nil)
+	return n
+}
+
 func main() {
 	r := ev.New("C03", "model_checking",
 		"responses: full product of status-line atoms (2 versions x 17 codes x with/without reason, 8 malformed, 10 exotic) x all header-line sequences of length <=2 over 29 atoms "+
 			"(tolerated/foreign/malformed Content-Types, confusable header names, Location, header lines longer than a 4096-byte read buffer whose tail at and around the buffer boundary reads like a Content-Type or Location) x 14 bodies x 2 tolerated sets, classified must-accept / must-reject / unspecified by a reference written from the statement; "+
 			"redirect graphs: chains of every length around each budget (jtp.Get budgets 0..3, client.FetchURL budget 20) in 5 Location styles, cycles of length 1..3, 7 kinds of bad hop at each position; "+
-			"histories: explicit-state search over fetch sequences (16 URLs: documents, relative and absolute redirects, 404, cycle, chain longer than the budget and its suffixes, the same host and path under http and a redirect to it, fragment and :443 variants, a redirecting URL with a fragment) for cache sizes 1,2,3,128, "+
+			"entry points: every sequence of <=3 operations over client.FetchURL on documents of five declared types and a webfinger lookup, cache emptied before each, compared with the operation on its own; histories: explicit-state search over fetch sequences (16 URLs: documents, relative and absolute redirects, 404, cycle, chain longer than the budget and its suffixes, the same host and path under http and a redirect to it, fragment and :443 variants, a redirecting URL with a fragment) for cache sizes 1,2,3,128, "+
 			"state = real cache contents, every fetch compared with the cold result; distinct_nontrivial = response cases that are not the baseline and are judged")
 	theWorld.Install()
 	if *ev.FlagReplay != "" {
@@ -793,6 +875,7 @@ func main() {
 	r.Sample(respCase{sts[0].Text, []string{hat[16].Line}, bodyAtoms(1)[0].Text, "ap", "https://h1.example/r/N"})
 	r.Sample(respCase{"HTTP/1.1 204\r\n", []string{hat[0].Line, hat[4].Line}, `null`, "ap", "https://h1.example/r/N"})
 	runGraphs(r)
+	r.Eval(clientHistories(r))
 	r.Sample(graphCase{"chain:relative-path", 21, 20, "client.FetchURL", "https://h1.example/g/cN/n0/leaf"})
 	depth := 4
 	if r.Thorough() {
